@@ -44,6 +44,15 @@ ASSUME \A n \in 0..49 : \A a \in {0, 1, 15, 16, 17, 33} :
             /\ ~SIVDecrypt(K2A, <<ad \o <<0>>>>, z)[1]
             /\ ~SIVDecrypt(K2A, <<>>, z)[1]
 
+\* the streaming routine's identity: CBC over data with `last` folded into the final BlockLen bytes = CMAC(data xorend last)
+ASSUME \A n \in 16..100 : \A k \in {SivK1(K1A), Take(K2A, 16)} :
+         XorEndStream(k, Bs(n, n), Bs(16, n + 3)) = XorEndAndCompute(k, Bs(n, n), Bs(16, n + 3))
+\* S2V's two branches meet consistently at the block length: 15 bytes are padded, 16 bytes are xorend-ed
+ASSUME LET k == SivK1(K1A) d == Xor(Dbl(CMAC(k, SivZero)), CMAC(k, <<>>)) IN
+         /\ S2V(k, <<<<>>, Bs(16, 1)>>) = CMAC(k, Xor(Bs(16, 1), d))
+         /\ S2V(k, <<<<>>, Bs(15, 1)>>) = CMAC(k, Xor(Dbl(d), Bs(15, 1) \o <<128>>))
+         /\ S2V(k, <<<<>>, Bs(17, 1)>>) = CMAC(k, <<Bs(17, 1)[1]>> \o Xor(Drop(Bs(17, 1), 1), d))
+
 \* Tink wire format
 E1 == [id |-> <<1, 2, 3, 4>>, variant |-> "TINK", key |-> K1A \o K2A, status |-> "ENABLED", primary |-> TRUE]
 E2 == [id |-> <<1, 2, 3, 4>>, variant |-> "CRUNCHY", key |-> K2A \o K1A, status |-> "ENABLED", primary |-> FALSE]
